@@ -536,7 +536,7 @@ func init() {
 				f[1] = BvBin("bvadd", term(t.F[1]), d)
 				return StructV{f}
 			}
-			panic(execErr{"Time.Add on non-monotonic instant with this model"})
+			return nil // wall-clock instant: the real Add runs
 		},
 
 		// ---- math ----
